@@ -38,6 +38,26 @@ CLAIMED = {
    note="Trusted: MIRSem.tla as transcription of MIR.md; sampled by TLC simulation, not exhaustive.",
    technique="TLA+ abstract machine as oracle for MIR_link's simplifier/inliner; TLC behaviours replayed through the interpreter",
    design="DESIGN.md §4 C04"),
+ "C05": dict(level="model_checking",
+   text="TLC explores the complete state graph of the psABI argument-placement machine of spec/SysVABI.tla (integer/vector register counters, "
+        "stack parity, next argument kind incl. every scalar type, long double, blk0..blk4, rblk; 126 states, every transition) under four "
+        "invariants, and emits one prototype per transition with the expected location of every eightbyte, `...` variants, every legal result "
+        "list and long random prototypes (simulation). Every prototype is executed through the interpreter FFI and MIR_gen -O0..-O3 against an "
+        "assembly probe that captures the register/stack image and against a gcc-compiled C callee; placement, %al, stack alignment, "
+        "narrow-argument extension and results are compared with the specification.",
+   note="Trusted: SysVABI.tla as transcription of the psABI and gcc as second oracle; x86-64 only (the host).",
+   technique="TLA+ psABI placement machine explored exhaustively by TLC; one real call per transition against an assembly probe and a gcc callee",
+   design="DESIGN.md §4 C05, A.4"),
+ "C06": dict(level="model_checking",
+   text="Signatures are the prototypes TLC derives from spec/SysVABI.tla (every transition, `...` variants, result lists, random long "
+        "signatures). For each, a MIR function from a body family (leaf, register pressure, calls, alloca+calls, variadic consumer with va_arg "
+        "and va_block_arg) is entered from an assembly trampoline that places arguments per the spec, fills callee-saved registers with "
+        "sentinels and sets non-default MXCSR/x87 control words, through the interpreter shim, generated code -O0..-O3 and the lazy thunk. "
+        "Recorded Call/Obs/Ret events are validated by spec/TraceABI.tla, which recomputes parameter values, results, preserved registers, "
+        "stack pointer and control words from the raw machine image (direction A and B).",
+   note="Trusted: SysVABI.tla/TraceABI.tla; x86-64 only (the host).",
+   technique="TLC-derived signatures replayed through an assembly trampoline; recorded Call/Obs/Ret traces validated by TraceABI.tla",
+   design="DESIGN.md §4 C06, A.4"),
  "C15": dict(level="model_checking",
    text="TLC evaluates Verdict() of spec/MIRCheck.tla, written from MIR.md and not from insn_descs, on the complete table: every documented "
         "opcode x operand position x 46 operand kinds, arity, ret vs result types, call/inline/jcall vs 8 prototypes incl. block args and "
